@@ -30,12 +30,14 @@ func c07NoShared(exprs []string) {
 		return
 	}
 	un := c06Unordered(expr) || len(exprs) > len(c06Exprs)
+	// the monitor covers the very first call too: a write that removes its own
+	// trigger (compacting away the nulls it skips) happens only once
+	vrtMonitor(true)
 	want, werr := e.Search(doc)
 	var wsnap any
 	if werr == nil {
 		wsnap = deepCopy(want)
 	}
-	vrtMonitor(true)
 	if vrtSymbolic() {
 		// one call from an arbitrary state in which other calls are in flight:
 		// it may not write anything those calls can reach
